@@ -14,6 +14,7 @@ import (
 	"github.com/KevoDB/kevo/pkg/engine/storage"
 	"github.com/KevoDB/kevo/pkg/stats"
 	"github.com/KevoDB/kevo/pkg/transaction"
+	"github.com/KevoDB/kevo/pkg/verifhook"
 	"github.com/KevoDB/kevo/pkg/wal"
 )
 
@@ -605,6 +606,7 @@ func (e *EngineFacade) Close() error {
 		}
 	}
 
+	verifhook.Point("engine.close.after_compaction")
 	// 2. Close storage (which will close sstables and WAL)
 	if e.storage != nil {
 		if storageErr := e.storage.Close(); storageErr != nil {
@@ -615,6 +617,7 @@ func (e *EngineFacade) Close() error {
 		}
 	}
 
+	verifhook.Point("engine.close.after_storage")
 	// Even though we're closing, track the latency for monitoring purposes
 	latencyNs := uint64(time.Since(start).Nanoseconds())
 	e.stats.TrackOperationWithLatency(stats.OpFlush, latencyNs) // Using OpFlush as a proxy for engine operations
